@@ -285,7 +285,7 @@ void runner_main(Trace* t, int cmd_r, int done_w, bool passthrough) {
     }
 }
 
-Outcome run_child(Trace* t, const std::vector<Pt>& prefix, bool verbose, bool passthrough, bool fresh = false) {
+Outcome run_child1(Trace* t, const std::vector<Pt>& prefix, bool verbose, bool passthrough, bool fresh) {
     if (fresh || !g_reuse || g_runner.jobs >= g_recycle) kill_runner();
     t->status = ST_RUNNING; t->npts = 0; t->obslen = 0; t->obs[0] = 0; t->sig[0] = 0; t->detail[0] = 0;
     t->prefix_len = prefix.size(); t->verbose = verbose; t->maxpts = g_maxpts;
@@ -335,6 +335,18 @@ Outcome run_child(Trace* t, const std::vector<Pt>& prefix, bool verbose, bool pa
         classify_crash(o, log);
     } else {
         o.sig = t->sig; o.detail = t->detail;
+    }
+    return o;
+}
+
+// a timed-out execution is re-run alone, in a fresh process, with a 6x limit before it is believed
+// (a loaded machine can starve a freshly forked sanitizer process for seconds)
+Outcome run_child(Trace* t, const std::vector<Pt>& prefix, bool verbose, bool passthrough, bool fresh = false) {
+    Outcome o = run_child1(t, prefix, verbose, passthrough, fresh);
+    if (o.status == ST_VIOLATION && o.sig == "timeout") {
+        int saved = g_exec_timeout; g_exec_timeout = saved * 6;
+        o = run_child1(t, prefix, verbose, passthrough, true);
+        g_exec_timeout = saved;
     }
     return o;
 }
